@@ -802,6 +802,12 @@ def graph_doc(rng, shape, n, same_bare_names=False, cyclic=False, kinds=('>', '<
         t = am.Table(sch, name)
         t.columns.append(am.Column(nm('id', 'bare'), am.ColType('plain', 'int'), pk=True))
         doc.tables.append(t)
+    if n >= 2 and rng.random() < 0.06 and not same_bare_names:
+        # a table whose (quoted) name is empty
+        tz = rng.choice(doc.tables)
+        if not any(x is not tz and x.name == '' and x.schema == tz.schema for x in doc.tables):
+            tz.name = ''
+            doc.classes.add('empty-table-name')
     edges = dag_edges(rng, shape, n)
     if cyclic and n >= 2:
         edges = sorted(set(edges) | {(b, a) for a, b in edges[:1]} | {(0, n - 1), (n - 1, 0)})
